@@ -517,7 +517,8 @@ LoopOnIterator:
 
 		if userRelation == "" {
 			for _, f := range req.GetUserFilters() {
-				if f.GetType() == userObjectType {
+				// a userset filter (type#relation) only admits usersets, never plain objects or wildcards of the type
+				if f.GetType() == userObjectType && f.GetRelation() == "" {
 					user := tuple.StringToUserProto(tuple.BuildObject(userObjectType, userObjectID))
 
 					concurrency.TrySendThroughChannel(ctx, foundUser{
